@@ -37,11 +37,16 @@ Definition w_setq_values :=
   [ELet [("x", I 0)] [EMvb ["a"; "b"] (ESetq [("x", EValues [I 1; I 2])]) [EPrim PList [EVar "a"; EVar "b"]]]].
 Lemma setq_values_refuted : fst (runM 60 w_setq_values) <> fst (runS 60 w_setq_values) /\ guardb 60 w_setq_values = false.
 Proof. differ. Qed.
-(* (multiple-value-bind (a b) (or (values nil 2) 5) (list a b)) : or returns the Values object of a form that is
-   not the last *)
+(* repaired (repo_fixes/C01-14): a form of or that is not the last is judged by, and contributes, its primary value.
+   (multiple-value-bind (a b) (or (values nil 2) 5) (list a b)) => (5 nil) in every mode *)
 Definition w_or_values := [EMvb ["a"; "b"] (EOr [EValues [ENil; I 2]; I 5]) [EPrim PList [EVar "a"; EVar "b"]]].
-Lemma or_values_refuted : fst (runM 60 w_or_values) <> fst (runS 60 w_or_values) /\ guardb 60 w_or_values = false.
-Proof. differ. Qed.
+Example or_takes_primary_value :
+  forallb (fun m => match fst (run m 60 w_or_values) with Ok (VList [VInt 5; VNil]) => true | _ => false end) [Slip; Ref; Chk] = true.
+Proof. vm_compute; reflexivity. Qed.
+(* what or does with a form that is not its last is the same in every mode, and it is what the language says: stop
+   with the primary value unless that is nil *)
+Lemma or_step_same : forall m v, or_step m v = Ok (if is_nil (primary v) then None else Some (primary v)).
+Proof. reflexivity. Qed.
 (* repaired (repo_fixes/C01-7): (dotimes (i -1 i)) => 0, the number of iterations, in every mode *)
 Definition w_dotimes_neg := [EDotimes "i" (I (-1)) (Some (EVar "i")) []].
 Example dotimes_negative_count_zero :
